@@ -81,7 +81,8 @@ Probes == << Probe("GET", "/probe", "none", 0, << >>),
              Probe("PUT", "/probe", "chunked", 7, <<3, 4>>),
              [Probe("GET", "/probe/close", "none", 0, << >>) EXCEPT !.close = TRUE],
              [Probe("GET", "/probe10", "none", 0, << >>) EXCEPT !.ver = "1.0"],
-             [Probe("POST", "/probe/fold", "cl", 3, << >>) EXCEPT !.fields = HeaderSets[3]] >>
+             [Probe("POST", "/probe/fold", "cl", 3, << >>) EXCEPT !.fields = HeaderSets[3]],
+             [Probe("GET", "/probe10c", "none", 0, << >>) EXCEPT !.ver = "1.0"] @@ [noKeepAlive |-> TRUE] >>
 
 \* chunked requests that also carry Content-Length (smaller than, equal to and larger than the encoded body)
 AmbigBase(n, cs) == [Probe("POST", "/both", "chunked", n, cs) EXCEPT !.fields = <<HostField, F("x-a", "canon", <<"v1">>)>>]
